@@ -3,7 +3,7 @@
 # patch compiles + existing tests of the touched crates (and the crates that depend on them) pass; the demo's new tests fail
 # with the patch and pass without it. Writes /verif/seeded/<prop>_<x>/{patch.diff,demo.diff,README.agent.md,verify.log}.
 P=$1; X=$2; SLOT=${3:-0}
-SD=/tmp/seed3/$P/out/$X; ID=${P}_$X
+SD=${SEEDROOT:-/tmp/seed3}/$P/out/$X; ID=${P}_$X
 [ -f $SD/patch.diff ] && [ -f $SD/demo.diff ] || { echo "missing diffs for $ID"; exit 3; }
 crates_of() {   # crates whose tests must keep passing, from the paths a diff touches
   local c=""
